@@ -40,6 +40,7 @@ fn hist_profile() -> HistProfile {
         set_var: 3,
         eval: 3,
         observe: 3,
+        binds: 0,
         max_ops: 12,
     }
 }
